@@ -221,7 +221,7 @@ func structuredLayouts() []layout {
 		name, kind string
 		at         int
 	}{{"missing-middle", "missing", 1}, {"missing-first", "missing", 0}, {"garbage-middle", "garbage", 1},
-		{"garbage-first", "garbage", 0}, {"garbage-last", "garbage", 2}, {"empty-file", "empty", 1}} {
+		{"garbage-first", "garbage", 0}, {"garbage-last", "garbage", 2}, {"empty-file", "empty", 1}, {"styp-only-file", "styponly", 1}} {
 		r := vrep("V1", 1000, 3, 40, 50, "trex")
 		r.Segs[c.at].Kind = c.kind
 		add(one(c.name, videoSet(r)))
